@@ -479,6 +479,10 @@ def directed_c01():
     D.append(("post_call_with_computed_callee", [("raw", "steps := []func(){func() { rt.Emit(40, a) }, func() { rt.Emit(41, b) }}"), ("decl", "i", "0"), ("for", None, "i < n", ("raw", "steps[i&1]()"), [Y("i + 1"), ("inc", "i")]), Y("a")]))
     D.append(("post_call_callee_returned_by_call", [("raw", "pick := func() func() {\n\trt.Emit(rt.EFF, 42)\n\treturn func() { rt.Emit(rt.EFF, 43) }\n}"), ("decl", "i", "0"), E(1), Y("b"), ("for", None, "i < n", ("raw", "pick()()"), [("inc", "i"), Y("i + 1")]), Y("a")]))
     D.append(("post_call_reassigned_callee", [("raw", "f := func() { rt.Emit(rt.EFF, 44) }"), ("decl", "i", "0"), ("for", None, "i < n", ("raw", "f()"), [("inc", "i"), Y("i + 1"), ("raw", "f = func() { rt.Emit(40, i) }")]), Y("a")]))
+    # an ordinary closure inside a native (yield-free) loop / switch of a generator, then a jump of that statement
+    D.append(("closure_in_native_loop_then_break", [("decl", "t", "0"), ("for", ("decl", "i", "0"), "i < n + 2", ("inc", "i"), [("raw", "f := func() int {\n\tdefer func() {}()\n\treturn i + a\n}"), ("if", "f() > b", [("break",)], None), ("if", "i == 1", [("continue",)], None), ("assign", "t", "t + f()")]), Y("t + 1"), Y("b")]))
+    D.append(("closure_in_native_switch_then_break", [("decl", "t", "0"), Y("a"), ("switch", None, "b & 1", [("0", [("raw", "g := func() int { return a + 1 }"), ("if", "g1", [("break",)], None), ("assign", "t", "g()")])], [("assign", "t", "7")]), Y("t + 2")]))
+    D.append(("closure_in_native_range_then_continue", [("decl", "t", "0"), ("range", "_", "v", ":=", "[]int{a, b, a + b}", [("raw", "h := func() bool { return v&1 == 0 }"), ("if", "h()", [("continue",)], None), ("assign", "t", "t*2 + v")]), Y("t")]))
     D.append(("tagless_switch_in_loop_with_continue", [("for", ("decl", "i", "0"), "i < n", ("inc", "i"), [("switch", None, None, [("i == 0", [Y("a + 1")]), ("i > 1", [Y("i + 2"), ("continue",)])], [E(1)]), Y("i + 100")]), Y("b")]))
     D.append(("tagless_switch_with_init_last_in_loop", [("for", ("decl", "i", "0"), "i < n", ("inc", "i"), [("switch", ("decl", "x", "i + a"), None, [("x > b", [Y("x + 1")]), ("g1", [E(1)])], None)]), Y("b")]))
     D.append(("for_without_condition", [("for", ("decl", "i", "0"), None, ("inc", "i"), [("if", "i >= n", [("break",)], None), Y("i + 1"), ("if", "g1", [("continue",)], None), E(1)]), Y("a")]))
@@ -747,7 +751,7 @@ def plan_C01(ctx):
         "explanation": "per program one driver; every feasible path of source-under-coroutine-semantics followed by compiled-code+seq is executed from SSA and the two event logs are compared by one SMT query",
     }
     return corpus_check(ctx, "c01", build, K, 0, extra, [REF_ASSUMPTION, PROGRAM_DIM],
-                        floors={"drivers_holds": ctx.q(100, 1000), "decided_ratio_min": 0.8})
+                        floors={"drivers_holds": ctx.q(100, 1000), "decided_ratio_min": 0.95})
 
 
 CLAIMED["C01"] = plan_C01
@@ -758,7 +762,7 @@ def plan_C02(ctx):
 
     def build(corp):
         counts = build_c01_corpus(ctx, corp, ctx.q(150, 1500), ctx.q(450, 2000), sample_seed_off=2, transform=gen.effectify)
-        xs = gen.exprform_programs()
+        xs = gen.exprform_programs() + gen.funcvalue_programs()
         for p in xs:
             corp.add(p)
         counts["expression_forms"] = len(xs)
@@ -800,7 +804,7 @@ def plan_C02(ctx):
         "explanation": "flat equality of the marker+effect+yield log of source-under-coroutine-semantics and compiled code; because the engine is deterministic and the log contains the advance markers, equality of the full log implies equality at every truncation point k <= K",
     }
     return corpus_check(ctx, "c02", build, K, 2, extra, [REF_ASSUMPTION, PROGRAM_DIM],
-                        floors={"drivers_holds": ctx.q(100, 1000), "decided_ratio_min": 0.8})
+                        floors={"drivers_holds": ctx.q(100, 1000), "decided_ratio_min": 0.95})
 
 
 CLAIMED["C02"] = plan_C02
@@ -844,7 +848,7 @@ def plan_C18(ctx):
         "explanation": "every advance is wrapped in defer/recover; the log records which advance panicked and with which value (run-time panics by class); flat log equality source-under-coroutine-semantics vs compiled code",
     }
     return corpus_check(ctx, "c18", build, K, 0, extra, [REF_ASSUMPTION, PROGRAM_DIM, "run-time panics are compared by class (nil-deref, index, div-zero, nil-map, type-assert), explicit panic values structurally"],
-                        floors={"drivers_holds": ctx.q(100, 800), "decided_ratio_min": 0.8})
+                        floors={"drivers_holds": ctx.q(100, 800), "decided_ratio_min": 0.95})
 
 
 CLAIMED["C18"] = plan_C18
@@ -917,7 +921,7 @@ def plan_C05(ctx):
         "bounds": {"advances_K": K, "recursion_depth": "n in [-1,3]", "outside": "program shapes not generated; deeper recursion; more than K advances"},
         "explanation": "(i) source-under-coroutine-semantics vs compiled code, flat log with advance markers and delegate-side effects (one delegate step per consumer step, argument evaluated once); (ii) second pass on the generated package: compiled YieldFrom form vs compiled range form of the same body must produce equal logs (AssertSameLogs)",
     }
-    rc = corpus_check(ctx, "c05", build, K, 1, extra, [REF_ASSUMPTION, PROGRAM_DIM], floors={"drivers_holds": ctx.q(100, 800), "decided_ratio_min": 0.8}, second_pass=r"^DriveEq_")
+    rc = corpus_check(ctx, "c05", build, K, 1, extra, [REF_ASSUMPTION, PROGRAM_DIM], floors={"drivers_holds": ctx.q(100, 800), "decided_ratio_min": 0.95}, second_pass=r"^DriveEq_")
     return rc
 
 
@@ -1032,7 +1036,7 @@ def plan_C03(ctx):
 
     run22 = corpus_run(ctx22, "c03v", build22, K, 0)
     extra["bounds"]["outside"] = "program shapes not generated; closures escaping the generator (C06/C13); under go >= 1.22 semantics only the directed loop-variable shapes"
-    return corpus_check(ctx, "c03", build, K, 0, extra, [REF_ASSUMPTION, PROGRAM_DIM], floors={"drivers_holds": ctx.q(100, 1000), "decided_ratio_min": 0.8}, more_runs=[run22])
+    return corpus_check(ctx, "c03", build, K, 0, extra, [REF_ASSUMPTION, PROGRAM_DIM], floors={"drivers_holds": ctx.q(100, 1000), "decided_ratio_min": 0.95}, more_runs=[run22])
 
 
 CLAIMED["C03"] = plan_C03
@@ -1070,7 +1074,7 @@ def plan_C04(ctx):
     int_run = corpus_run(ctx22, "c04i", build_int, K, 0, nlo=-2, nhi=3)
     return corpus_check(ctx, "c04", build, K, 0, extra, [REF_ASSUMPTION, PROGRAM_DIM,
                         "string range / []rune(s) / utf8.DecodeRuneInString share one engine decoder; map range and reflect.MapIter share one insertion-ordered iterator"],
-                        floors={"drivers_holds": ctx.q(150, 200), "decided_ratio_min": 0.8}, more_runs=[int_run])
+                        floors={"drivers_holds": ctx.q(150, 200), "decided_ratio_min": 0.95}, more_runs=[int_run])
 
 
 CLAIMED["C04"] = plan_C04
@@ -1090,7 +1094,7 @@ def plan_C06(ctx):
         "bounds": {"loop_bound_n": "[-1,2]", "outside": "consumer shapes not generated; nil iterators; Current() before the first advance as control input; consumer loops that re-declare their variable in the body (rejected by the Go type checker after lowering: C11 territory)"},
         "explanation": "drivers call a consumer function (range with break/continue/return at guard-controlled points, := and = forms, nested ranges, pull+range on one iterator, iterators in struct fields / maps / slices / closures, generic helpers, method and generic generators); log = generator-side effects + consumer-side effects + final result; flat equality source-under-coroutine-semantics vs generated code. Incomplete Iter type replacement shows up as a generated package that does not type-check (front-end refutation, reported as unbuildable, not as a solver verdict).",
     }
-    return corpus_check(ctx, "c06", build, 0, 0, extra, [REF_ASSUMPTION, PROGRAM_DIM], floors={"drivers_holds": ctx.q(150, 800), "decided_ratio_min": 0.8}, nlo=-1, nhi=2)
+    return corpus_check(ctx, "c06", build, 0, 0, extra, [REF_ASSUMPTION, PROGRAM_DIM], floors={"drivers_holds": ctx.q(150, 800), "decided_ratio_min": 0.95}, nlo=-1, nhi=2)
 
 
 CLAIMED["C06"] = plan_C06
@@ -1211,7 +1215,7 @@ def plan_C07(ctx):
             p.helpers = p.helpers.replace("@", p.pid)
             p.body = [tuple(x.replace("@", p.pid) if isinstance(x, str) else x for x in st) for st in p.body]
             corp.add(p)
-        xs = gen.exprform_programs()
+        xs = gen.exprform_programs() + gen.funcvalue_programs()
         for p in xs:
             corp.add(p)
         # closures over functions of other imported packages whose signature is the only mention of a
@@ -1241,7 +1245,7 @@ def plan_C07(ctx):
     return corpus_check(ctx, "c07", build, K, 1, extra,
                         ["both worlds are plain Go (no coroutine intrinsics)", PROGRAM_DIM,
                          "the unoptimised world is the hook's output after removing the co import it no longer uses (go/types would otherwise reject it; production never builds that stage)"],
-                        floors={"drivers_holds": ctx.q(200, 2000), "decided_ratio_min": 0.8}, stage1=True, ref_tree="unopt", extra_violations=nested_viol)
+                        floors={"drivers_holds": ctx.q(200, 2000), "decided_ratio_min": 0.95}, stage1=True, ref_tree="unopt", extra_violations=nested_viol)
 
 
 CLAIMED["C07"] = plan_C07
